@@ -274,7 +274,9 @@ pub fn gen_path(src: &mut Src) -> (Vec<P>, i64) {
     let mut horiz = src.bool();
     for _ in 1..n {
         let mut d = src.signed(12);
-        if d == 0 {
+        // a repeated point (zero-length segment) now and then, in paths of three or more points, where
+        // one of the two copies is an interior joint; otherwise never zero
+        if d == 0 && !(n >= 3 && src.prob(1, 2)) {
             d = 1;
         }
         p = if horiz { (p.0 + d, p.1) } else { (p.0, p.1 + d) };
